@@ -27,6 +27,40 @@ Definition canon_frags (d : list (list Z * list path)) : list (list Z * list pat
 Definition frags_eqb := list_eqb (pair_eqb path_eqb (list_eqb path_eqb)).
 Definition dict_eqb := list_eqb (pair_eqb Z.eqb Z.eqb).
 Definition paths_eqb := list_eqb path_eqb.
+(* one helper per kind of case; `idd` is the identifier dictionary observed on the implementation (compared with
+   atom_identifiers g by ids_ok), fed to the *_with functions whose instances at atom_identifiers g are the model *)
+Definition ids_ok (g : mol) (e : list (Z * Z)) : bool := dict_eqb (atom_identifiers g) e.
+Definition chains_ok (g : mol) (lo hi : Z) (e : list path) : bool := paths_eqb (set_paths (chains g lo hi)) e.
+Definition seq_ok (g : mol) (lo hi : Z) (e : list path) : bool :=
+  option_eqb paths_eqb (chains_seq_loop (chains_fuel g hi) g lo hi) (Some e).
+Definition loop_ok (g : mol) (lo hi : Z) : bool :=
+  option_eqb paths_eqb (chains_seq_loop (chains_fuel g hi) g lo hi) (Some (chains_seq g lo hi)).
+(* fragment keys are compared after replacing every atom identifier (even positions) by its first position in the
+   identifier dictionary: an injective recoding of the keys of one molecule that keeps the case files small *)
+Definition idx_of (tbl : list Z) (a : Z) : Z := match index_of tbl a with Some i => i | None => -1 end.
+Fixpoint enc_key (tbl : list Z) (k : list Z) : list Z :=
+  match k with
+  | [] => []
+  | [a] => [idx_of tbl a]
+  | a :: o :: r => idx_of tbl a :: o :: enc_key tbl r
+  end.
+Definition frags_ok (idd : list (Z * Z)) (g : mol) (lo hi : Z) (e : list (list Z * list path)) : bool :=
+  frags_eqb (canon_frags (map (fun kv => (enc_key (map snd idd) (fst kv), snd kv)) (fragments_with idd g lo hi))) e.
+Definition lhs_ok (idd : list (Z * Z)) (g : mol) (lo hi nbp : Z) (e : list Z) : bool :=
+  list_eqb Z.eqb (set_z (linear_hashes hash_ztuple_fast nbp (fragments_with idd g lo hi))) e.
+Definition lhs_full_ok (g : mol) (lo hi nbp : Z) (e : list Z) : bool :=
+  list_eqb Z.eqb (set_z (linear_hash_list hash_ztuple_fast g lo hi nbp)) e.
+Definition lbs_full_ok (g : mol) (lo hi len nab nbp : Z) (e : pyres (list Z)) : bool :=
+  ok_set (linear_bit_list hash_ztuple_fast g lo hi len nab nbp) e.
+Definition fold_ok (len nab : Z) (hs : list Z) (e : pyres (list Z)) : bool := ok_set (bit_list len nab hs) e.
+Definition mfold_ok (len nab : Z) (hs : pyres (list Z)) (e : pyres (list Z)) : bool := ok_set (bit_list_of len nab hs) e.
+Definition mhd_ok (idd : list (Z * Z)) (g : mol) (lo hi : Z) (e : pyres (list (list (Z * Z)))) : bool :=
+  pyres_eqb (list_eqb dict_eqb) (morgan_hash_dict_with hash_ztuple_fast idd g lo hi) e.
+Definition mhd_full_ok (g : mol) (lo hi : Z) (e : pyres (list (list (Z * Z)))) : bool :=
+  pyres_eqb (list_eqb dict_eqb) (morgan_hash_dict hash_ztuple_fast g lo hi) e.
+Definition mhs_full_ok (g : mol) (lo hi : Z) (e : pyres (list Z)) : bool := ok_set (morgan_hash_list hash_ztuple_fast g lo hi) e.
+Definition mbs_full_ok (g : mol) (lo hi len nab : Z) (e : pyres (list Z)) : bool :=
+  ok_set (morgan_bit_list hash_ztuple_fast g lo hi len nab) e.
 '''
 
 
@@ -37,12 +71,20 @@ def pv(v):
     if isinstance(v, bool):
         return f'PBool {b(v)}'
     if isinstance(v, int):
-        return f'PInt {zraw(v)}'
+        return f'PInt {zx(v)}'
     return 'PTuple ' + lst([f'({pv(x)})' for x in v])
 
 
+def zx(v):
+    """Coq Z literal; large values in hexadecimal (the number notation reads them about twice as fast)"""
+    v = int(v)
+    if -65536 < v < 65536:
+        return zraw(v)
+    return f'(-{hex(-v)})' if v < 0 else hex(v)
+
+
 def zl(xs):
-    return lst(list(xs), zraw)
+    return lst(list(xs), zx)
 
 
 def pl(ps):
@@ -98,23 +140,30 @@ def kind_of(v):
     return 'nested-tuple' if any(isinstance(x, tuple) for x in v) else 'flat-tuple'
 
 
+HASH_EXTRA = '''
+Definition hk (v : pyval) (e : Z) : bool := py_hash v =? e.
+(* both evaluations of the hash of a tuple of ints: the model and its masked form used by the fingerprint cases *)
+Definition hz (l : list Z) (e : Z) : bool := (hash_ztuple l =? e) && (hash_ztuple_fast l =? e).
+'''
+
+
 def corr_pyhash(ck):
     rng = random.Random(f'{ck.seed}:pyhash')
-    n = 24000 if ck.tier == 'quick' else 120000
+    n = 2000 if ck.tier == 'quick' else 40000
     vals = list(BOUNDARY) + [True, False, (), (True,), (False, 0), ((),), ((), ()), (-1,), (-1, -1), (P61,), ((P61, -1), 2 ** 63)]
     vals += [(x, y) for x in BOUNDARY[:12] for y in BOUNDARY[:12]]
     while len(vals) < n:
         vals.append(gen_value(rng))
     # flat int tuples through hash_ztuple, the function the fingerprint model actually uses
     flat = [tuple(rng.choice([rng.randint(-2 ** 63, 2 ** 63 - 1), rng.randint(0, 120), rng.choice(BOUNDARY)])
-                  for _ in range(rng.randint(0, 12))) for _ in range(n // 8)]
-    cases = [f'(py_hash ({pv(v)}) =? {zraw(hash(v))})' for v in vals]
-    cases += [f'(hash_ztuple {zl(v)} =? {zraw(hash(v))})' for v in flat]
+                  for _ in range(rng.randint(0, 12))) for _ in range(n // 4)]
+    cases = [f'hk ({pv(v)}) {zx(hash(v))}' for v in vals]
+    cases += [f'hz {zl(v)} {zx(hash(v))}' for v in flat]
     meta = vals + flat
     for v in meta:
         ck.case(('hash', v))
         ck.count('pyhash:' + kind_of(v))
-    ok, failing, log = coqcases.run_cases('c17h', IMPORTS, cases, shard=2000)
+    ok, failing, log = coqcases.run_cases('c17h', IMPORTS, cases, extra=HASH_EXTRA, shard=900)
     good = ok and not failing
     ck.oblige(f'correspondence: PyHash.py_hash / hash_ztuple == hash() of the running interpreter on {len(cases)} values', good,
               'correspondence', log or str([meta[i] for i in failing[:5]]))
@@ -221,60 +270,98 @@ LENGTHS = [1, 2, 3, 8, 64, 100, 1000, 1024, 2048, 4096, 2 ** 16, 2 ** 20, 2 ** 3
 BAD_LENGTHS = [0, -1, -1024]
 NABS = [1, 2, 3, 4, 1, 2, 3, 4, 0, -1, 5, 7]
 NBPS = [0, 1, 2, 3, 4, 5, 0, 4, -1, 9]
+# volume limits of one case (the Coq model hashes about 1000 tuple items per second under vm_compute)
+MAX_PATHS_CHAINS = 2500        # _chains compared when it has at most this many chains
+MAX_PATHS_FRAGS = 700          # _fragments compared (dict_append is quadratic in the number of keys)
+MOL_BUDGET_SMALL = 2000        # hashed tuple items per molecule of at most 10 atoms
+MOL_BUDGET_LARGE = 900         # ... per larger molecule
 
 
-def mol_cases(ck, tag, m, rng, heavy):
-    """Coq boolean expressions comparing every modelled function on molecule m (Coq name `g`) with chython"""
+def dict_term(d):
+    return lst([tup(zraw(k), zx(v)) for k, v in d.items()])
+
+
+def mol_cases(ck, tag, g, m, rng):
+    """[(Coq boolean expression, meta, estimated cost in hashed items)] comparing every modelled function on molecule m
+    (Coq names: g = the molecule, d<g> = the identifier dictionary observed on the implementation) with chython"""
     cases = []
+    d = 'd' + g
+    spent = [0]
 
-    def add(expr, what, params):
-        cases.append((expr, (tag, what, params)))
+    def add(expr, what, params, cost=0):
+        spent[0] += cost
+        cases.append((expr, (tag, what, params), cost))
         ck.case((tag, what, params))
         ck.count('fp:' + what)
 
-    add('wf_mol g', 'wf_mol', ())
-    ids = m._atom_identifiers
-    add(f'dict_eqb (atom_identifiers g) {lst([tup(zraw(k), zraw(v)) for k, v in ids.items()])}', '_atom_identifiers', ())
     n = len(m._atoms)
-    radii = [r for r in RADII if heavy or r[1] <= (4 if n > 14 else 6)]
-    pick = rng.sample(radii, min(len(radii), 4 if heavy else 3)) + rng.sample(BAD_RADII, 1)
-    if n <= 9:
-        pick += rng.sample(RADII, 2)
+    small = n <= 10
+    budget = MOL_BUDGET_SMALL if small else MOL_BUDGET_LARGE       # hashed items per molecule
+
+    def affordable(lanes):
+        return spent[0] + lanes <= budget
+    add(f'wf_mol {g}', 'wf_mol', ())
+    add(f'ids_ok {g} {d}', '_atom_identifiers', (), 4 * n)
+    radii = RADII if small else [r for r in RADII if r[1] <= 4]
+    pick = rng.sample(radii, 4 if small else 2) + rng.sample(BAD_RADII, 1)
+    idvals = list(m._atom_identifiers.values())
+
+    def enc(key):
+        return [idvals.index(x) if i % 2 == 0 else x for i, x in enumerate(key)]
+    hashed = 0
     for lo, hi in pick:
-        ch = sorted(m._chains(lo, hi))
-        add(f'paths_eqb (set_paths (chains g {zraw(lo)} {zraw(hi)})) {pl(ch)}', '_chains(set)', (lo, hi))
+        ch = m._chains(lo, hi)
+        if len(ch) > MAX_PATHS_CHAINS:
+            ck.count('fp:skipped (too many chains)')
+            continue
+        a = f'{g} {zraw(lo)} {zraw(hi)}'
         seq = chains_sequence(m, lo, hi)
+        if small or seq is None:        # (for a larger molecule the add sequence, which determines the set, is compared instead)
+            add(f'chains_ok {a} {pl(sorted(ch))}', '_chains(set)', (lo, hi))
         if seq is not None:
-            add(f'option_eqb paths_eqb (chains_seq_loop (chains_fuel g {zraw(hi)}) g {zraw(lo)} {zraw(hi)}) (Some {pl(seq)})',
-                '_chains(add sequence, deque loop model)', (lo, hi))
-        else:
-            add(f'option_eqb paths_eqb (chains_seq_loop (chains_fuel g {zraw(hi)}) g {zraw(lo)} {zraw(hi)}) '
-                f'(Some (chains_seq g {zraw(lo)} {zraw(hi)}))', 'loop model == generation model', (lo, hi))
-        fr = sorted((k, sorted(v)) for k, v in m._fragments(lo, hi).items())
-        add(f'frags_eqb (canon_frags (fragments g {zraw(lo)} {zraw(hi)})) {lst([tup(zl(k), pl(v)) for k, v in fr])}',
-            '_fragments', (lo, hi))
-        for nbp in rng.sample(NBPS, 2):
+            add(f'seq_ok {a} {pl(seq)}', '_chains(add sequence, deque loop model)', (lo, hi))
+        elif small:
+            add(f'loop_ok {a}', 'loop model == generation model', (lo, hi))
+        if len(ch) > MAX_PATHS_FRAGS:
+            continue
+        frd = m._fragments(lo, hi)
+        fr = sorted((enc(k), sorted(v)) for k, v in frd.items())
+        add(f'frags_ok {d} {a} {lst([tup(zl(k), pl(v)) for k, v in fr])}', '_fragments', (lo, hi))
+        nbp = rng.choice(NBPS)
+        cap = nbp or 999_999_999
+        lanes = sum((len(k) + 1) * max(0, min(len(v), cap)) for k, v in frd.items())
+        if affordable(lanes) and (small or hashed == 0):
+            hashed += 1
             hs = sorted(m.linear_hash_set(lo, hi, nbp))
-            add(f'list_eqb Z.eqb (set_z (linear_hash_list hash_ztuple g {zraw(lo)} {zraw(hi)} {zraw(nbp)})) {zl(hs)}',
-                'linear_hash_set', (lo, hi, nbp))
-        for _ in range(2):
+            if small:       # the top-level model function, identifiers recomputed
+                add(f'lhs_full_ok {a} {zraw(nbp)} {zl(hs)}', 'linear_hash_set', (lo, hi, nbp), lanes + 4 * n)
+            else:
+                add(f'lhs_ok {d} {a} {zraw(nbp)} {zl(hs)}', 'linear_hash_set (over the observed identifiers)', (lo, hi, nbp), lanes)
+        if affordable(lanes + 4 * n) and (small or lanes < 300):
             ln = rng.choice(LENGTHS + BAD_LENGTHS[:1]) if rng.random() < 0.9 else rng.choice(BAD_LENGTHS)
             nab, nbp = rng.choice(NABS), rng.choice(NBPS)
             t, err = res_term(lambda: m.linear_bit_set(lo, hi, ln, nab, nbp), lambda s: zl(sorted(s)))
-            add(f'ok_set (linear_bit_list hash_ztuple g {zraw(lo)} {zraw(hi)} {zraw(ln)} {zraw(nab)} {zraw(nbp)}) ({t})',
-                'linear_bit_set' + (':' + err if err else ''), (lo, hi, ln, nab, nbp))
-    for lo, hi in rng.sample(RADII, 3) + rng.sample(BAD_RADII, 1):
-        t, err = res_term(lambda: m._morgan_hash_dict(lo, hi),
-                          lambda ds: lst([lst([tup(zraw(k), zraw(v)) for k, v in d.items()]) for d in ds]))
-        add(f'pyres_eqb (list_eqb dict_eqb) (morgan_hash_dict hash_ztuple g {zraw(lo)} {zraw(hi)}) ({t})',
-            '_morgan_hash_dict' + (':' + err if err else ''), (lo, hi))
+            add(f'lbs_full_ok {a} {zraw(ln)} {zraw(nab)} {zraw(nbp)} ({t})', 'linear_bit_set' + (':' + err if err else ''),
+                (lo, hi, ln, nab, nbp), lanes + 4 * n)
+    deg = sum(len(v) for v in m._bonds.values())
+    mr = rng.sample(RADII, 3) + rng.sample(BAD_RADII, 1) if small else rng.sample([r for r in RADII if r[1] <= 3], 1) + rng.sample(BAD_RADII, 1)
+    for lo, hi in mr:
+        lanes = max(0, hi - 1) * (n + 2 * deg)
+        if not affordable(lanes if not small else 3 * lanes):
+            ck.count('fp:skipped (Morgan over the budget)')
+            continue
+        a = f'{g} {zraw(lo)} {zraw(hi)}'
+        t, err = res_term(lambda: m._morgan_hash_dict(lo, hi), lambda ds: lst([dict_term(x) for x in ds]))
+        if not small:
+            add(f'mhd_ok {d} {a} ({t})', '_morgan_hash_dict (over the observed identifiers)' + (':' + err if err else ''), (lo, hi), lanes)
+            continue
+        add(f'mhd_full_ok {a} ({t})', '_morgan_hash_dict' + (':' + err if err else ''), (lo, hi), lanes + 4 * n)
         t, err = res_term(lambda: m.morgan_hash_set(lo, hi), lambda s: zl(sorted(s)))
-        add(f'ok_set (morgan_hash_list hash_ztuple g {zraw(lo)} {zraw(hi)}) ({t})', 'morgan_hash_set' + (':' + err if err else ''), (lo, hi))
+        add(f'mhs_full_ok {a} ({t})', 'morgan_hash_set' + (':' + err if err else ''), (lo, hi), lanes + 4 * n)
         ln = rng.choice(LENGTHS + BAD_LENGTHS)
         nab = rng.choice(NABS)
         t, err = res_term(lambda: m.morgan_bit_set(lo, hi, ln, nab), lambda s: zl(sorted(s)))
-        add(f'ok_set (morgan_bit_list hash_ztuple g {zraw(lo)} {zraw(hi)} {zraw(ln)} {zraw(nab)}) ({t})',
-            'morgan_bit_set' + (':' + err if err else ''), (lo, hi, ln, nab))
+        add(f'mbs_full_ok {a} {zraw(ln)} {zraw(nab)} ({t})', 'morgan_bit_set' + (':' + err if err else ''), (lo, hi, ln, nab), lanes + 4 * n)
     return cases
 
 
@@ -282,63 +369,142 @@ def corr_molecules(ck):
     from chython import MoleculeContainer
     rng = random.Random(f'{ck.seed}:fp')
     quick = ck.tier == 'quick'
-    mols = [('empty', MoleculeContainer())]
+    mols = [('empty', None, MoleculeContainer())]
     for smi in HAND:
         m = parse(smi)
         if m is not None:
-            mols.append(('hand:' + smi, m))
+            mols.append(('hand:' + smi, smi, m))
     pool = [s for s in corpus.sample(corpus.lipo(), 400 if quick else 3000, ck.seed, 'c17corr')]
     n_corpus = 0
     for smi in pool:
-        if n_corpus >= (36 if quick else 400):
+        if n_corpus >= (30 if quick else 300):
             break
         m = parse(smi)
         if m is None or len(m._atoms) > 30:
             continue
         n_corpus += 1
-        mols.append(('corpus:' + smi, m))
+        mols.append(('corpus:' + smi, smi, m))
         if n_corpus % 3 == 0:
-            mols.append(('corpus-renumbered:' + smi, renumbered(m, rng)))
+            mols.append(('corpus-renumbered:' + smi, None, renumbered(m, rng)))
         if n_corpus % 3 == 1:
-            mols.append(('corpus-order-shuffled:' + smi, order_shuffled(m, rng)))
+            mols.append(('corpus-order-shuffled:' + smi, None, order_shuffled(m, rng)))
     for i in range(30 if quick else 300):
         k = rng.choice([1, 2, 3, 4, 4, 5, 5, 6, 6, 7])
-        mols.append((f'generated-graph:{i}:{k}', random_graph_mol(rng, k)))
-    shards = []
-    meta_all = []
-    for i, (tag, m) in enumerate(mols):
+        mols.append((f'generated-graph:{i}:{k}', None, random_graph_mol(rng, k)))
+    per_mol = []
+    for i, (tag, smi, m) in enumerate(mols):
         ck.count('molecules:' + tag.split(':')[0])
         ck.count(f'molecule_atoms<={(len(m._atoms) + 4) // 5 * 5}')
-        cs = mol_cases(ck, tag, m, rng, heavy=len(m._atoms) <= 9)
-        shards.append((i, coqmol.mol_term(m), cs))
-    ck.sample({'molecule': mols[5][0], 'case': shards[5][2][3][0][:300], 'meta': repr(shards[5][2][3][1])})
+        g = f'g{i}'
+        cs = mol_cases(ck, tag, g, m, rng)
+        defs = f'Definition {g} : mol := {coqmol.mol_term(m)}.\nDefinition d{g} : list (Z * Z) := {dict_term(m._atom_identifiers)}.\n'
+        per_mol.append((defs, cs))
+    ck.sample({'molecule': mols[5][0], 'case': per_mol[5][1][3][0][:300], 'meta': repr(per_mol[5][1][3][1])})
+    # molecules are packed into shards of balanced estimated cost (one coqc process per shard)
+    n_shards = 8 if quick else 48
+    order = sorted(range(len(per_mol)), key=lambda i: -(sum(c[2] for c in per_mol[i][1]) + sum(len(c[0]) for c in per_mol[i][1]) // 20))
+    shards = [[] for _ in range(n_shards)]
+    load = [0] * n_shards
+    for i in order:
+        k = load.index(min(load))
+        shards[k].append(i)
+        load[k] += sum(c[2] for c in per_mol[i][1]) + sum(len(c[0]) for c in per_mol[i][1]) // 20 + 50
 
-    def one(sh):
-        i, term, cs = sh
-        extra = EXTRA + f'Definition g : mol := {term}.\n'
-        ok, failing, log = coqcases.run_cases(f'c17m{i}', IMPORTS, [c for c, _ in cs], extra=extra, shard=len(cs))
+    def one(k):
+        extra = EXTRA + ''.join(per_mol[i][0] for i in shards[k])
+        cs = [c for i in shards[k] for c in per_mol[i][1]]
+        ok, failing, log = coqcases.run_cases(f'c17m{k}', IMPORTS, [c[0] for c in cs], extra=extra, shard=max(1, len(cs)))
         return ok, [cs[j][1] for j in failing], log
 
     bad = []
     logs = []
     ok_all = True
-    with cf.ThreadPoolExecutor(max_workers=12) as ex:
-        for ok, failing, log in ex.map(one, shards):
+    with cf.ThreadPoolExecutor(max_workers=8) as ex:
+        for ok, failing, log in ex.map(one, [k for k in range(n_shards) if shards[k]]):
             ok_all &= ok
             bad.extend(failing)
             if log:
                 logs.append(log[-1500:])
-    total = sum(len(cs) for _, _, cs in shards)
+    total = sum(len(cs) for _, cs in per_mol)
     good = ok_all and not bad
-    ck.oblige(f'correspondence: _chains (set and add sequence), _atom_identifiers, _fragments, linear_hash_set, linear_bit_set, '
+    ck.oblige(f'correspondence: _chains (set; add sequence for min_radius != 1), _atom_identifiers, _fragments, linear_hash_set, linear_bit_set, '
               f'_morgan_hash_dict, morgan_hash_set, morgan_bit_set == Coq model on {len(mols)} molecules / {total} cases', good,
               'correspondence', '\n'.join(logs) or repr(bad[:8]))
     ck.extra['fingerprint_cases'] = total
     ck.extra['fingerprint_molecules'] = len(mols)
+    ck.extra['fingerprint_hashed_items_estimate'] = sum(c[2] for _, cs in per_mol for c in cs)
     if not good:
         ck.unchecked('correspondence Fingerprint model vs chython/algorithms/fingerprints', '\n'.join(logs)[-1500:],
                      [repr(x) for x in bad[:20]])
-    return good, [x for x in bad]
+    by_tag = {tag: (smi, m) for tag, smi, m in mols}
+    return good, bad, by_tag
+
+
+# ------------------------------------------------------------------------------------------------------------
+# folding: the real linear_bit_set / morgan_bit_set run on chosen hash sets (the hash-set method of a stub subclass
+# returns them), so that boundary hash values reach the folding code
+
+FOLD_HASHES = [0, 1, -1, -2, 2 ** 63 - 1, -2 ** 63, 2 ** 62, -2 ** 62, 1023, 1024, -1024, -1025, 2 ** 32 - 1, -2 ** 32, 2 ** 61 - 1, 1546275796,
+               0x5555555555555555, -0x5555555555555556, 0x7FFFFFFF00000000, -0x7FFFFFFF00000001]
+
+
+def corr_folding(ck):
+    from chython.algorithms.fingerprints.linear import LinearFingerprint
+    from chython.algorithms.fingerprints.morgan import MorganFingerprint
+
+    class LinStub(LinearFingerprint):
+        __slots__ = ('hs', 'args')
+
+        def linear_hash_set(self, *a, **k):
+            self.args = a
+            return set(self.hs)
+
+    class MorStub(MorganFingerprint):
+        __slots__ = ('hs', 'args')
+
+        def morgan_hash_set(self, *a, **k):
+            self.args = a
+            if self.hs is None:
+                raise AssertionError('min_radius should be positive')
+            return set(self.hs)
+
+    rng = random.Random(f'{ck.seed}:fold')
+    quick = ck.tier == 'quick'
+    lengths = sorted(set(LENGTHS + BAD_LENGTHS + [2 ** k for k in range(0, 34)] + [5, 6, 7, 9, 255, 257, 1023, 1025, 2 ** 40, 2 ** 48]))
+    nabs = [-1, 0, 1, 2, 3, 4, 5, 7, 8]
+    cases, meta = [], []
+    combos = [(ln, nab) for ln in lengths for nab in nabs]
+    for ln, nab in combos:
+        for rep in range(2 if quick else 8):
+            hs = set(rng.sample(FOLD_HASHES, rng.choice([0, 1, 2, 3])) + [rng.randint(-2 ** 63, 2 ** 63 - 1) for _ in range(rng.choice([0, 1, 2]))])
+            lin = LinStub()
+            lin.hs = hs
+            t, err = res_term(lambda: lin.linear_bit_set(2, 5, ln, nab, 3), lambda s: zl(sorted(s)))
+            if err is None and lin.args != (2, 5, 3):
+                t = 'Err OtherError'        # the parameters were not passed on as (min_radius, max_radius, number_bit_pairs)
+            cases.append(f'fold_ok {zraw(ln)} {zraw(nab)} {zl(sorted(hs))} ({t})')
+            meta.append(('linear_bit_set on a stub hash set', ln, nab, sorted(hs)))
+            ck.count('fold:linear' + (':' + err if err else ''))
+            mor = MorStub()
+            mor.hs = None if rng.random() < 0.15 else hs
+            t, err = res_term(lambda: mor.morgan_bit_set(2, 5, ln, nab), lambda s: zl(sorted(s)))
+            if err is None and mor.args != (2, 5):
+                t = 'Err OtherError'
+            arg = 'Err OtherError' if mor.hs is None else 'Ok ' + zl(sorted(hs))
+            cases.append(f'mfold_ok {zraw(ln)} {zraw(nab)} ({arg}) ({t})')
+            meta.append(('morgan_bit_set on a stub hash set', ln, nab, None if mor.hs is None else sorted(hs)))
+            ck.count('fold:morgan' + (':' + err if err else ''))
+    for x in meta:
+        ck.case(x)
+    ok, failing, log = coqcases.run_cases('c17f', IMPORTS, cases, extra=EXTRA, shard=700)
+    good = ok and not failing
+    ck.oblige(f'correspondence: the folding of linear_bit_set / morgan_bit_set (real methods on stub hash sets incl. boundary values, '
+              f'{len(lengths)} lengths x {len(nabs)} active-bit values) == bit_list / bit_list_of on {len(cases)} cases', good,
+              'correspondence', log or str([meta[i] for i in failing[:5]]))
+    ck.extra['folding_cases'] = len(cases)
+    if not good:
+        ck.unchecked('correspondence folding model (bit_list) vs linear_bit_set / morgan_bit_set', log[-1500:], [repr(meta[i]) for i in failing[:20]])
+    return good, [meta[i] for i in failing]
 
 
 # ------------------------------------------------------------------------------------------------------------
@@ -563,28 +729,32 @@ def search_molecule(ck, tag, smi, m, rng, budget_params):
     return n_eval
 
 
+KNOWN_SMILES = 'C[O-].[OH-]'
+
+
 def known_witness(ck):
-    """linear_hash_smiles picks chains[0] of a set-ordered list as the representative of a fragment key; the atom
-    identifier ignores aromaticity / hydrogen count, so which SMILES is shown depends on the atom numbering"""
-    smi = 'Cc1ccccc1'
-    m = parse(smi)
+    """linear_hash_smiles shows, for every fragment hash, the SMILES of chains[0] of a set-ordered list; the atom identifier
+    ignores the hydrogen count (and aromaticity), so which spelling is shown depends on the atom numbering: the smallest
+    witness has 3 atoms (methoxide + hydroxide: the O- fragment is spelt '[O-]' or '[OH-]'); all 6 numberings are tried"""
+    m = parse(KNOWN_SMILES)
     if m is None:
         return
-    rng = random.Random(7)
+    nums = list(m._atoms)
     seen = {}
-    for _ in range(40):
-        m2 = renumbered(m, rng)
-        r = tuple(sorted((k, tuple(sorted(v))) for k, v in m2.linear_hash_smiles(1, 2).items()))
-        seen.setdefault(r, dict(zip(m._atoms, m2._atoms)))
-    ck.case(('known-witness', smi))
+    for perm in itertools.permutations(nums):
+        m2 = m.copy()
+        m2.remap(dict(zip(nums, perm)))
+        r = tuple(sorted((k, tuple(sorted(v))) for k, v in m2.linear_hash_smiles(1, 1).items()))
+        seen.setdefault(r, dict(zip(nums, perm)))
+        ck.case(('known-witness', KNOWN_SMILES, perm))
     if len(seen) > 1:
         (r1, map1), (r2, map2) = list(seen.items())[:2]
         diff = [(a, bb) for a, bb in zip(r1, r2) if a != bb][:2]
-        ck.counterexample('linear_hash_smiles-numbering:Cc1ccccc1', 'linear_hash_smiles of toluene depends on the atom numbering (the SMILES shown for the '
-                          'single-carbon fragment is "C" or "c", for the C-C fragment "Cc" or "cC")', {'smiles': smi, 'mapping_a': map1, 'mapping_b': map2},
+        ck.counterexample('linear_hash_smiles-numbering:' + KNOWN_SMILES, 'linear_hash_smiles(1, 1) of methoxide + hydroxide depends on the atom numbering '
+                          "(the SMILES shown for the O- fragment is '[O-]' or '[OH-]')", {'smiles': KNOWN_SMILES, 'mapping_a': map1, 'mapping_b': map2},
                           [d[1] for d in diff], [d[0] for d in diff], 'same molecule, other numbering',
-                          replay_py="from chython import smiles\nm = smiles('Cc1ccccc1'); a = m.linear_hash_smiles(1, 2)\n"
-                                    "m.remap({1: 7, 7: 1}); b = m.linear_hash_smiles(1, 2)\nprint(sorted(a.items())); print(sorted(b.items()))")
+                          replay_py="from chython import smiles\nm = smiles('C[O-].[OH-]'); a = m.linear_hash_smiles(1, 1)\n"
+                                    "m.remap({2: 3, 3: 2}); b = m.linear_hash_smiles(1, 1)\nprint(sorted(a.items())); print(sorted(b.items()))")
 
 
 def search(ck, n_corpus, n_generated):
@@ -615,6 +785,72 @@ def search(ck, n_corpus, n_generated):
     ck.extra['search_molecules'] = len(mols)
 
 
+def directed_search(ck, bad, by_tag):
+    """the correspondence disagreed: run the property-level oracles of the search on the disagreeing molecules, with the
+    disagreeing radii first and then the whole grid of documented radii, and on renumbered / shuffled copies"""
+    rng = random.Random(f'{ck.seed}:directed')
+    todo = {}
+    for tag, what, params in bad:
+        radii = todo.setdefault(tag, [])
+        if len(params) >= 2 and 1 <= params[0] <= params[1] and tuple(params[:2]) not in radii:
+            radii.append(tuple(params[:2]))
+    n_eval = 0
+    for tag, radii in list(todo.items())[:40]:
+        smi, m = by_tag[tag]
+        grid = radii + [r for r in RADII if r not in radii and (len(m._atoms) <= 12 or r[1] <= 4)]
+        ck.count('directed-search molecules')
+        n_eval += search_molecule(ck, tag, smi, m, rng, grid)
+        for mk in (renumbered, order_shuffled):
+            n_eval += search_molecule(ck, tag + ':' + mk.__name__, None, mk(m, rng), rng, radii or grid[:3])
+    ck.extra['directed_search_evaluations'] = n_eval
+
+
+def directed_fold_search(ck, bad_fold):
+    """the folding correspondence disagreed: property-level oracle (window arithmetic, range) on the disagreeing inputs"""
+    from chython.algorithms.fingerprints.linear import LinearFingerprint
+    from chython.algorithms.fingerprints.morgan import MorganFingerprint
+
+    class LinStub(LinearFingerprint):
+        __slots__ = ('hs',)
+
+        def linear_hash_set(self, *a, **k):
+            return set(self.hs)
+
+    class MorStub(MorganFingerprint):
+        __slots__ = ('hs',)
+
+        def morgan_hash_set(self, *a, **k):
+            return set(self.hs)
+
+    for what, ln, nab, hs in bad_fold[:200]:
+        if hs is None or ln < 1 or ln & (ln - 1):
+            continue            # the property speaks about lengths 2^k
+        stub = LinStub() if what.startswith('linear') else MorStub()
+        stub.hs = hs
+        name = 'linear_bit_set' if what.startswith('linear') else 'morgan_bit_set'
+        try:
+            bits = stub.linear_bit_set(1, 4, ln, nab, 4) if what.startswith('linear') else stub.morgan_bit_set(1, 4, ln, nab)
+        except Exception as e:
+            bits = f'{type(e).__name__}: {e}'
+        exp = set().union(*(window_bits(h, ln, nab) for h in hs)) if hs else set()
+        ck.case(('directed-fold', what, ln, nab, tuple(hs)))
+        if bits != exp:
+            ck.counterexample(f'folding:{name}:{ln}:{nab}:{hs}', f'{name} does not set exactly the log2(length)-bit windows of the hashes (indices below length, '
+                              'max(1, number_active_bits) windows per hash)', {'hashes': hs, 'length': ln, 'number_active_bits': nab},
+                              sorted(bits) if isinstance(bits, set) else bits, sorted(exp), 'arithmetic definition of the folding',
+                              replay_py=FOLD_REPLAY.format(name=name, hs=hs, ln=ln, nab=nab))
+
+
+FOLD_REPLAY = """from chython.algorithms.fingerprints.linear import LinearFingerprint
+from chython.algorithms.fingerprints.morgan import MorganFingerprint
+class S(LinearFingerprint, MorganFingerprint):
+    __slots__ = ()
+    def linear_hash_set(self, *a, **k): return set({hs})
+    def morgan_hash_set(self, *a, **k): return set({hs})
+print(sorted(S().{name}(1, 4, {ln}, {nab})))
+"""
+
+
 def run(ck):
     ck.trusted += ['correspondence runner harness/checks/C17.py + harness/coqcases.py + harness/coqmol.py (printing of live molecules as Coq terms)',
                    'CachedMethods shim harness/boot.py', 'CPython 3.12.1 (its hash() is what PyHash is compared with)',
@@ -633,14 +869,28 @@ def run(ck):
                         'per molecule a random part of the grid radii (1..6 incl. min>max, min<1) x length (2^k, non powers of two, <= 0) x active bits (-1..7) x bit '
                         'pairs (-1..9). Search: same families, more molecules, oracle = brute-force paths / counts / recursive Morgan / window arithmetic / '
                         'renumbering / shuffling; a path case is non-trivial when there are more paths than atoms')
-    proved = common.standard_proof_steps(ck, translators=[])
-    tied_hash = corr_pyhash(ck)
-    tied_fp, bad = corr_molecules(ck)
-    all_ok = proved and tied_hash and tied_fp
+    import time
+    phase = ck.extra['phase_s'] = {}
+
+    def timed(name, fn, *a):
+        t0 = time.time()
+        r = fn(*a)
+        phase[name] = round(time.time() - t0, 1)
+        return r
+
+    proved = timed('proof steps', common.standard_proof_steps, ck, [])
+    tied_hash = timed('correspondence PyHash', corr_pyhash, ck)
+    tied_fold, bad_fold = timed('correspondence folding', corr_folding, ck)
+    tied_fp, bad, by_tag = timed('correspondence molecules', corr_molecules, ck)
+    all_ok = proved and tied_hash and tied_fp and tied_fold
+    if not tied_fp:
+        timed('directed search', directed_search, ck, bad, by_tag)
+    if not tied_fold:
+        timed('directed folding search', directed_fold_search, ck, bad_fold)
     if ck.tier == 'quick':
-        n_corpus, n_gen = (120, 120) if all_ok else (400, 400)     # directed: more volume when a layer broke
+        n_corpus, n_gen = (100, 100) if all_ok else (300, 300)     # directed: more volume when a layer broke
     else:
         n_corpus, n_gen = (1500, 1500) if all_ok else (3000, 3000)
-    search(ck, n_corpus, n_gen)
+    timed('search', search, ck, n_corpus, n_gen)
     ck.extra['proved'] = proved
-    ck.extra['tied'] = bool(tied_hash and tied_fp)
+    ck.extra['tied'] = bool(tied_hash and tied_fp and tied_fold)
